@@ -2,8 +2,10 @@
 //! `--cfg assets_manager_verif`) and writes what it observed as Coq case files, which the
 //! orchestrator evaluates against the reference model with `coqc`.
 mod answers;
+mod loopdiff;
 mod ridiff;
 mod rwdiff;
+mod sysdiff;
 mod util;
 mod world;
 
@@ -14,6 +16,8 @@ fn main() {
         "ridiff" => ridiff::run(&a),
         "answers" => answers::run(&a),
         "rwdiff" => rwdiff::run(&a),
+        "sysdiff" => sysdiff::run(&a),
+        "loopdiff" => loopdiff::run(&a),
         "answers-child" => std::process::exit(answers::child(&a)),
         other => {
             eprintln!("unknown engine {other}");
